@@ -46,8 +46,6 @@ pub mod sched;
 
 
 
-#[cfg(feature = "vo_bit")]
-#[cfg(feature = "vo_bit")]
 
 
 
